@@ -233,6 +233,19 @@ func runAdapter(sc AdScenario) (*verdict, *adResult) {
 	if len(sc.Ops) > 0 || sc.Burst || !sc.UO {
 		adWait(func() bool { l, _ := last(); return l == r.get })
 	}
+	if sc.Mask == "p" && len(sc.Ops) > 0 {
+		// the preset-only message has two values: "equal to GetPositions" may be an OLD message while newer ones are still
+		// to be composed (the inner stream is lossy: changes of one direction merged ahead of another direction's can take
+		// the map through the preset and back). The stream counts as drained when it has also been silent for a while.
+		quietSince, seen := time.Now(), -1
+		adWait(func() bool {
+			l, n := last()
+			if n != seen {
+				seen, quietSince = n, time.Now()
+			}
+			return l == r.get && time.Since(quietSince) >= 25*time.Millisecond
+		})
+	}
 	cancel()
 	select {
 	case <-closed:
